@@ -155,7 +155,21 @@ func record(rec string) {
 	})
 	oracleSys(rec, canon)
 	st.log = append(st.log, canon)
+	if len(st.log) > roundBudget {
+		// a round that does not end: the loop goroutine is parked here, inside the shim, for good (it would otherwise
+		// go on making system calls and filling the log), and the driver is told
+		select {
+		case runaway <- struct{}{}:
+		default:
+		}
+		select {}
+	}
 }
+
+// roundBudget: more log entries than any generated round can produce (the largest: a few thousand for a 1000-segment writev)
+const roundBudget = 20000
+
+var runaway = make(chan struct{}, 1)
 
 func fail(msg string) { util.Fail(msg) }
 
@@ -674,8 +688,20 @@ func waitEvent() vs.Event {
 	select {
 	case ev := <-vs.Events:
 		return ev
+	case <-runaway:
+		tail := ""
+		if n := len(st.log); n > 0 {
+			tail = st.log[n-1]
+			if len(tail) > 60 {
+				tail = tail[:60]
+			}
+		}
+		fail(fmt.Sprintf("the event loop never came back to epoll_wait: more than %d system calls / callbacks inside one round, the last one: %s", roundBudget, tail))
+		util.Die("stuck count=0 | - @@=")
+		return vs.Event{Kind: "stuck"}
 	case <-time.After(20 * time.Second):
-		fail("loop did not come back to epoll_wait (stuck inside a round)")
+		fail("the event loop did not come back to epoll_wait within 20 s (stuck inside a round)")
+		util.Die("stuck count=0 | - @@=")
 		return vs.Event{Kind: "stuck"}
 	}
 }
@@ -908,6 +934,12 @@ func step(ws []string) string {
 		_ = ci.peer.Close()
 		ci.finSent = true
 		settle()
+		return "ok"
+	case "sndbuf": // sndbuf <cid> <bytes>: a small kernel send buffer on the framework's side of the connection, so
+		// that real back-pressure (EAGAIN from write/writev) is within reach of small payloads. Not visible to the model.
+		if ci := st.conns[ws[1]]; ci != nil && !ci.fdClosed && ci.closedCB == 0 {
+			_ = unix.SetsockoptInt(ci.fd, unix.SOL_SOCKET, unix.SO_SNDBUF, atoi(ws[2]))
+		}
 		return "ok"
 	case "peerread": // peerread <cid> <max>
 		ci := st.conns[ws[1]]
